@@ -38,6 +38,10 @@ func (fio *FileIO) Sync() error {
 
 func (fio *FileIO) Close() error {
 	verifhook.IO("close", fio.fd.Name(), 0)
+	// 接口约定关闭之前进行持久化
+	if err := fio.Sync(); err != nil {
+		return err
+	}
 	return fio.fd.Close()
 }
 
